@@ -2,6 +2,9 @@
 //!
 
 use std::ops::Deref;
+#[cfg(feature = "verif-hooks")]
+use crate::verif_sync::{Arc, Condvar, Mutex};
+#[cfg(not(feature = "verif-hooks"))]
 use std::sync::{Arc, Condvar, Mutex};
 use std::time;
 use tokio::time::timeout;
